@@ -161,7 +161,7 @@ def sortNat (xs : List Nat) : List Nat := xs.foldr insertSorted []
 inductive Res (α : Type) where
   | ok : α → Res α
   | valueError | zeroDivision | indexError | notImplemented
-deriving Repr
+deriving Repr, DecidableEq
 
 /-- `indices_selected_phases(sel)`: `phase_indices()[sel, :]` flattened and sorted
 (only non-negative phase numbers are modelled) -/
